@@ -104,8 +104,140 @@ func adapterByName(n string) *sigAdapter {
 	return nil
 }
 
+// runC04Sweep is the boundary supplement: MergeSplit called directly (through the helper's own request encoding) for a
+// window of CONSECUTIVE max_size values on one payload, optionally merged with a second one. Random max_size values
+// almost never fill a batch to the byte, and the byte accounting (length prefixes growing at 128 / 16384 bytes) can only
+// be wrong by a byte at an exact fill; a window of consecutive limits meets every exact fill inside it. Same clauses
+// and violation keys as the exporter-driven mode: conservation, identity, size bound; termination = the watchdog.
+func runC04Sweep(r *simkit.Run) {
+	tp := r.Tape
+	sig := []string{"logs", "traces", "metrics", "profiles"}[tp.Weighted(3, 3, 4, 1)]
+	ad := adapterByName(sig)
+	sizerName := []string{"bytes", "items"}[tp.Weighted(4, 1)]
+	szt := exporterhelper.RequestSizerTypeBytes
+	if sizerName == "items" {
+		szt = exporterhelper.RequestSizerTypeItems
+	}
+	ids := &gen.IDs{Prefix: "i"}
+	sh := gen.Shape{MaxResources: tp.Range(1, 2), MaxScopes: tp.Range(1, 2), MaxMetrics: tp.Range(1, 2), MaxItems: tp.Range(2, 16), NonEmpty: true}
+	p1 := ad.gen(tp, ids, sh)
+	var p2 any
+	if tp.Chance(1, 3) {
+		p2 = ad.gen(tp, ids, gen.Shape{MaxResources: 1, MaxScopes: 2, MaxMetrics: 2, MaxItems: tp.Range(1, 8), NonEmpty: true})
+	}
+	b1 := ad.marshal(p1)
+	var b2 []byte
+	want := ad.items(p1)
+	total := ad.bytes(p1)
+	if p2 != nil {
+		b2 = ad.marshal(p2)
+		for k, v := range ad.items(p2) {
+			want[k] = v
+		}
+		total += ad.bytes(p2)
+	}
+	if sizerName == "items" {
+		total = len(want)
+	}
+	const window = 48
+	lo := 1
+	if total > 2 {
+		lo = tp.Range(1, total)
+	}
+	if sizerName == "bytes" && lo < 24 {
+		lo = 24
+	}
+	if sizerName == "bytes" && tp.Chance(1, 10) {
+		// the next growth of a length prefix is at 16384 bytes: one long flat payload and a window around that size
+		r.Count("probe.sweep_around_16384")
+		big := gen.Shape{MaxResources: 1, MaxScopes: 1, MaxMetrics: 1, MaxItems: 900, NonEmpty: true, Fixed: true}
+		p1 = ad.gen(tp, ids, big)
+		p2, b2 = nil, nil
+		b1 = ad.marshal(p1)
+		want = ad.items(p1)
+		total = ad.bytes(p1)
+		lo = 16384 - 40 + tp.Draw(60)
+	}
+	r.Sample = map[string]any{"mode": "sweep", "signal": sig, "sizer": sizerName, "items": len(want), "total_size": total, "max_size_from": lo, "max_size_to": lo + window - 1, "merged_with_second_request": p2 != nil}
+	r.Logf("sweep %s sizer=%s total=%d items=%d max_size %d..%d second=%v", sig, sizerName, total, len(want), lo, lo+window-1, p2 != nil)
+	if js := ad.json(p1); len(js) < 3000 {
+		r.Logf("  payload: %s", js)
+	}
+	enc := ad.qbs().Encoding
+	r.Nontrivial = true
+	for max := lo; max < lo+window && !r.Failed(); max++ {
+		simkit.Beat()
+		req, err := enc.Unmarshal(b1)
+		if err != nil {
+			panic(err)
+		}
+		var req2 exporterhelper.Request
+		if b2 != nil {
+			if req2, err = enc.Unmarshal(b2); err != nil {
+				panic(err)
+			}
+		}
+		outs, err := req.MergeSplit(context.Background(), max, szt, req2)
+		r.Events++
+		r.AddCase(fmt.Sprintf("%s|%s|%d|%d", sig, sizerName, total, max), true)
+		if err != nil {
+			r.Failf("split", "error/"+sizerName, "MergeSplit(max_size=%d) failed: %v", max, err)
+			break
+		}
+		seen := map[string]int{}
+		for n, o := range outs {
+			ob, err := enc.Marshal(o)
+			if err != nil {
+				panic(err)
+			}
+			pl := ad.unmarshal(ob)
+			items := ad.items(pl)
+			for _, id := range sortedKeys(items) {
+				fp := items[id]
+				w, ok := want[id]
+				if !ok {
+					r.Failf("conservation", "invented-item", "max_size %d: batch %d contains item %s that was never offered (%s)", max, n+1, id, fp)
+					continue
+				}
+				if w != fp {
+					r.Failf("identity", sig+":"+strings.Join(gen.DiffFields(w, fp), "+"), "max_size %d: item %s left the batcher with a different context in batch %d: entered as %s, left as %s", max, id, n+1, w, fp)
+				}
+				if prev, dup := seen[id]; dup {
+					r.Failf("conservation", "duplicated-item", "max_size %d: item %s is in batch %d and in batch %d", max, id, prev, n+1)
+				}
+				seen[id] = n + 1
+			}
+			size := len(items)
+			if sizerName == "bytes" {
+				size = ad.bytes(pl)
+			}
+			indivisible := len(items) == 1
+			if ad.units != nil {
+				indivisible = ad.units(pl) == 1
+			}
+			if size > max && !indivisible {
+				locus := sizerName
+				if ad.hollow(pl) {
+					locus += "/batch-with-empty-containers"
+				}
+				r.Failf("size-bound", locus, "batch %d has size %d %s > max_size %d and holds %d items: %s", n+1, size, sizerName, max, len(items), ad.json(pl))
+			}
+		}
+		for _, id := range sortedKeys(want) {
+			if _, ok := seen[id]; !ok {
+				r.Failf("conservation", "lost-item", "max_size %d: item %s entered MergeSplit and is in none of the %d batches", max, id, len(outs))
+				break
+			}
+		}
+	}
+}
+
 func runC04(r *simkit.Run) {
 	tp := r.Tape
+	if tp.Chance(1, 8) {
+		runC04Sweep(r)
+		return
+	}
 	cfg := c04Config(tp)
 	r.Sample = cfg
 	queuebatch.VerifResetPools()
